@@ -135,6 +135,30 @@ func nitroVariant(c *vh.Ctx, r *vh.Rng, p *proj.Project, k int, legumes bool) {
 			}
 		}
 		p.Irr = irr
+	case 3:
+		// two passes of irrigation on one day, N in the water. The model's irrigation cursor is outside the
+		// schedules C10 speaks about here (which passes run is not judged); what C02 needs is that the N dissolved
+		// in the water that IS applied on a day reaches the soil: all lines carry one concentration, the day's input
+		// is concentration x water applied that day (EffectiveIRRIG, observed at the day-start probe)
+		s0 := p.Start()
+		var irr []proj.IrrEv
+		for _, e := range p.Irr {
+			if e.Date.Z() >= s0.Z() {
+				irr = append(irr, e)
+			}
+		}
+		if len(irr) == 0 {
+			irr = append(irr, proj.IrrEv{MM: r.Range(5, 40), Date: s0.AddDays(r.Range(1, 200))})
+		}
+		conc := r.Range(10, 60)
+		j := r.Intn(len(irr))
+		irr = append(irr[:j+1], append([]proj.IrrEv{{MM: irr[j].MM + r.Range(3, 25), Date: irr[j].Date, Field: irr[j].Field}}, irr[j+1:]...)...)
+		for i := range irr {
+			irr[i].Conc = conc
+		}
+		p.Irr = irr
+		p.Irrigated = true
+		nitroSameDayIrrConc[p] = conc
 	}
 	// ---------------------------------------------------------------- tillage types other than 1 / 2 (logged, no mixing)
 	if len(p.Til) > 0 && r.Chance(0.2) {
@@ -220,6 +244,10 @@ func nitroVariant(c *vh.Ctx, r *vh.Rng, p *proj.Project, k int, legumes bool) {
 
 // nitroIrrN: irrigation N expected on the day (kg N/ha), from the schedule file of the project; with
 // automatic irrigation the water carries no N (the automan table has no concentration column).
+// nitroSameDayIrrConc: projects whose irrigation schedule has two lines on one day; value = the one N
+// concentration of all its lines (see nitroVariant).
+var nitroSameDayIrrConc = map[*proj.Project]int{}
+
 func nitroIrrN(p *proj.Project, zeit int) float64 {
 	if a := nitroAutoOf[p]; a != nil && a.AutoIrr {
 		return 0
